@@ -112,6 +112,12 @@ impl CounterMarker {
         }
     }
 
+    #[cfg(feature = "verif-hooks")]
+    #[inline]
+    pub(crate) fn verif_raw(&self) -> (u16, u16) {
+        (self.tracing_counter.get(), self.counter.get())
+    }
+
     #[inline]
     pub(crate) fn counter(&self) -> u16 {
         let rc = self.counter.get() & COUNTER_MASK;
